@@ -58,8 +58,9 @@ def run(prop, tier, seed, replay=None):
         "by the correspondence on every run",
         "uint32_t arithmetic is Int with wrapU32 after every C++ operation; `x & 0xFFFF` / `x >> 16` on an unsigned word are "
         "`x % 65536` / `x / 65536`",
-        "RecInt exponentiation (rmgexp.h), inv_mod-based inv/div and arazi_qi are transcribed and tied by correspondence; "
-        "their all-inputs theorems are the ones listed in property_theorems, the rest is correspondence only",
+        "histories of operations are executed by the driver on a 5-register machine that calls the same model functions the "
+        "expression-language theorems (mg32_history_exact, mgR_history_exact) speak about; the destination of a non-in-place call "
+        "is never aliased with a source (alias safety is C15)",
         "g++ compiles the transcribed C++ as read (cross-validated in two configurations: -O1 ASan/UBSan and the repository's -O2 -march=native)",
     ]
     L = flow.lean_stage(V, ["GivaroModel.Props.C07"], "GivaroModel/Props/C07.lean")
@@ -95,7 +96,7 @@ def run(prop, tier, seed, replay=None):
              "RecInt K = 6…9 (10 in thorough, configuration R): moduli of every bit length 2 … 2^K (all lengths for K = 6, and for K = 7 in thorough; limb-boundary "
              "lengths ±1 and 10 (thorough: 60) random lengths otherwise) in the shapes 2^L-1, 2^(L-1)+1, random, top-limb-all-ones, limb-structured; residues corner set + "
              "limb-structured; exponents {0,1,2,p-2,p-1,2^(2^K)-1,2^(2^K-1),2^64,…}; Montgomery and non-Montgomery rmint on the same "
-             "inputs; built-in scalars of both signs.  distinct = distinct (key, arguments); non-trivial = some operand outside {0,1}",
+             "inputs; built-in scalars of both signs; random histories (3 … 40 steps over 14 operations on 5 registers, sources may coincide).  distinct = distinct (key, arguments); non-trivial = some operand outside {0,1}",
         extra={"lines_by_key": by_key, "moduli_32bit": len(moduli32), "moduli_recint": len(moduliR),
                "configs": sorted(bins), "timing_s": {"lean": round(L["t"], 1), "harness_build": round(t_build, 1),
                                                       "correspondence": round(t_corr, 1)}},
